@@ -26,6 +26,28 @@ def _is_pure(e: ast.AST) -> bool:
     return all(isinstance(n, PURE) for n in ast.walk(e))
 
 
+def _is_effect_free(e: ast.AST) -> bool:
+    """pure, or built with NumPy value operations only (x.dot(y), np.f(..) without out=): evaluating it twice, never, or
+    in another order relative to other such expressions gives the same values"""
+    for n in ast.walk(e):
+        if isinstance(n, PURE) or isinstance(n, ast.keyword):
+            if isinstance(n, ast.keyword) and n.arg in ("out", None):
+                return False
+            continue
+        if isinstance(n, ast.Call):
+            f = n.func
+            if isinstance(f, ast.Attribute) and f.attr in ("dot", "sum", "max", "min", "copy", "transpose") and not isinstance(f.value, ast.Name):
+                continue
+            if isinstance(f, ast.Attribute) and f.attr in ("dot", "sum", "max", "min", "copy", "transpose") and isinstance(f.value, ast.Name) \
+                    and f.value.id not in ("self", "sf"):
+                continue
+            if isinstance(f, ast.Attribute) and isinstance(f.value, ast.Name) and f.value.id == "np" and f.attr not in ("copyto", "put", "place", "fill_diagonal"):
+                continue
+            return False
+        return False
+    return True
+
+
 def _free(e: ast.AST) -> Set[str]:
     return {n.id for n in ast.walk(e) if isinstance(n, ast.Name)}
 
@@ -113,6 +135,17 @@ def _split_parallel(fn: ast.AST) -> int:
         while i < len(body):
             s = body[i]
             if isinstance(s, ast.Assign) and len(s.targets) == 1 and isinstance(s.targets[0], (ast.Tuple, ast.List)) \
+                    and len(s.targets[0].elts) == 1 and isinstance(s.targets[0].elts[0], ast.Name) \
+                    and isinstance(s.value, ast.Call) and isinstance(s.value.func, ast.Attribute) and s.value.func.attr == "nonzero" \
+                    and not s.value.args:
+                # (a,) = E.nonzero()   ->   a = E.nonzero()[0]   (a one-dimensional mask has exactly one index array)
+                s.value = ast.copy_location(ast.Subscript(value=s.value, slice=ast.Constant(0), ctx=ast.Load()), s.value)
+                s.targets = [s.targets[0].elts[0]]
+                ast.fix_missing_locations(s)
+                k += 1
+                i += 1
+                continue
+            if isinstance(s, ast.Assign) and len(s.targets) == 1 and isinstance(s.targets[0], (ast.Tuple, ast.List)) \
                     and isinstance(s.value, (ast.Tuple, ast.List)) and len(s.targets[0].elts) == len(s.value.elts) \
                     and not any(isinstance(e, ast.Starred) for e in list(s.targets[0].elts) + list(s.value.elts)):
                 tg, vs = s.targets[0].elts, s.value.elts
@@ -176,10 +209,31 @@ def _unroll(fn: ast.AST) -> int:
                     if ok and any(_free(p) & st for m in items for p in m.values()):
                         ok = False
                 if ok:
-                    new: List[ast.stmt] = []
-                    for m in items:
+                    # iteration-local names (bound by a plain assignment before any use in the body and mentioned nowhere
+                    # else in the function) get one name per unrolled iteration
+                    local_: List[str] = []
+                    if len(items) > 1:
+                        inside = {id(n) for b_ in s.body for n in ast.walk(b_)}
+                        outside = {n.id for n in ast.walk(fn) if isinstance(n, ast.Name) and id(n) not in inside}
+                        argn = {a.arg for a in ast.walk(fn) if isinstance(a, ast.arg)}
+                        seen: Set[str] = set()
                         for b_ in s.body:
-                            c = _Subst(m).visit(copy.deepcopy(b_))
+                            tg_ = b_.targets[0] if isinstance(b_, ast.Assign) and len(b_.targets) == 1 else \
+                                b_.target if isinstance(b_, ast.AnnAssign) and b_.value is not None else None
+                            if isinstance(tg_, ast.Name) and tg_.id not in seen and tg_.id not in outside and tg_.id not in argn \
+                                    and tg_.id not in _free(b_.value):
+                                local_.append(tg_.id)
+                            seen |= {n.id for n in ast.walk(b_) if isinstance(n, ast.Name)}
+                    new: List[ast.stmt] = []
+                    for j, m in enumerate(items):
+                        ren = {v: f"{v}__u{j}" for v in local_}
+                        for b_ in s.body:
+                            c = copy.deepcopy(b_)
+                            if ren:
+                                for n in ast.walk(c):
+                                    if isinstance(n, ast.Name) and n.id in ren:
+                                        n.id = ren[n.id]
+                            c = _Subst(m).visit(c)
                             ast.copy_location(c, s)
                             new.append(c)
                     for n_ in new:
@@ -214,6 +268,38 @@ class _AttrCalls(ast.NodeTransformer):
             a = ast.copy_location(ast.Assign(targets=[tgt], value=c.args[2]), s)
             ast.fix_missing_locations(a)
             return a
+        return s
+
+    @staticmethod
+    def _unrolled(e):
+        """[E(v) for v in (a, b)] -> [E(a), E(b)] (literal items, pure, no filter)"""
+        if len(e.generators) != 1:
+            return None
+        g = e.generators[0]
+        if g.ifs or g.is_async or not isinstance(g.target, ast.Name) or not isinstance(g.iter, (ast.Tuple, ast.List)) \
+                or not (1 <= len(g.iter.elts) <= 8) or not all(_is_pure(x) and not isinstance(x, ast.Starred) for x in g.iter.elts):
+            return None
+        if any(isinstance(x, (ast.Lambda, ast.ListComp, ast.GeneratorExp, ast.NamedExpr)) for x in ast.walk(e.elt)):
+            return None
+        return [_Subst({g.target.id: it}).visit(copy.deepcopy(e.elt)) for it in g.iter.elts]
+
+    def visit_ListComp(self, e: ast.ListComp):
+        self.generic_visit(e)
+        items = self._unrolled(e)
+        if items is None:
+            return e
+        n = ast.copy_location(ast.List(elts=items, ctx=ast.Load()), e)
+        ast.fix_missing_locations(n)
+        return n
+
+    def visit_Assign(self, s: ast.Assign):
+        self.generic_visit(s)
+        # a, b = (E(v) for v in (p, q)): the generator is consumed on the spot by the unpacking
+        if len(s.targets) == 1 and isinstance(s.targets[0], (ast.Tuple, ast.List)) and isinstance(s.value, ast.GeneratorExp):
+            items = self._unrolled(s.value)
+            if items is not None and len(items) == len(s.targets[0].elts):
+                s.value = ast.copy_location(ast.Tuple(elts=items, ctx=ast.Load()), s.value)
+                ast.fix_missing_locations(s)
         return s
 
     def visit_Call(self, c: ast.Call):
@@ -824,7 +910,7 @@ def _namedtuples(tree: ast.Module) -> Dict[str, dict]:
     for c in tree.body:
         if isinstance(c, ast.ClassDef) and any((isinstance(b, ast.Name) and b.id == "NamedTuple") or
                                               (isinstance(b, ast.Attribute) and b.attr == "NamedTuple") for b in c.bases):
-            fields, props, meths, ok = [], {}, {}, True
+            fields, props, meths, lifted, ok = [], {}, {}, {}, True
             for st in c.body:
                 if isinstance(st, ast.AnnAssign) and isinstance(st.target, ast.Name):
                     fields.append((st.target.id, st.value))
@@ -836,13 +922,54 @@ def _namedtuples(tree: ast.Module) -> Dict[str, dict]:
                     if len(body) == 1 and isinstance(body[0], ast.Return) and body[0].value is not None and st.args.args and st.args.args[0].arg == "self" \
                             and (is_prop or not st.decorator_list) and not st.args.vararg and not st.args.kwarg:
                         (props if is_prop else meths)[st.name] = (st, body[0].value)
+                    elif not st.decorator_list and st.args.args and st.args.args[0].arg == "self" and not st.args.vararg and not st.args.kwarg:
+                        lifted[st.name] = st
                     else:
                         ok = ok and any(isinstance(d, ast.Name) and d.id in ("classmethod", "staticmethod") for d in st.decorator_list)
                 else:
                     ok = False
             if fields and ok:
-                out[c.name] = {"fields": fields, "props": props, "meths": meths}
+                out[c.name] = {"fields": fields, "props": props, "meths": meths, "lifted": lifted}
     return out
+
+
+def _lift_methods(tree: ast.Module, nts: Dict[str, dict]) -> int:
+    """T19b: a several-statement method m of a NamedTuple class C becomes the module-level function C__m(self, ..); calls
+    v.m(..) on a local that only ever holds a C built in that function (and C(..).m(..)) become C__m(v, ..): the inliner
+    then treats it like any helper"""
+    k = 0
+    have = {n.name for n in tree.body if isinstance(n, ast.FunctionDef)}
+    for cname, info in nts.items():
+        for m, mdef in info.get("lifted", {}).items():
+            nm = f"{cname}__{m}"
+            if nm not in have:
+                d = copy.deepcopy(mdef)
+                d.name = nm
+                idx = next(i for i, n in enumerate(tree.body) if isinstance(n, ast.ClassDef) and n.name == cname)
+                tree.body.insert(idx + 1, d)
+                have.add(nm)
+    for fn in [n for n in ast.walk(tree) if isinstance(n, ast.FunctionDef)]:
+        stores = _stores(fn)
+        typ = {}
+        for n in _own_nodes(fn):
+            if isinstance(n, (ast.Assign, ast.AnnAssign)) and getattr(n, "value", None) is not None:
+                t = n.targets[0] if isinstance(n, ast.Assign) and len(n.targets) == 1 else getattr(n, "target", None)
+                v = n.value
+                if isinstance(t, ast.Name) and isinstance(v, ast.Call) and isinstance(v.func, ast.Name) and v.func.id in nts:
+                    typ.setdefault(t.id, []).append(v.func.id)
+        typ = {v: cs[0] for v, cs in typ.items() if len(set(cs)) == 1 and len(cs) == len(stores.get(v, []))}
+        for c in ast.walk(fn):
+            if isinstance(c, ast.Call) and isinstance(c.func, ast.Attribute):
+                o = c.func.value
+                cn = typ.get(o.id) if isinstance(o, ast.Name) else \
+                    o.func.id if isinstance(o, ast.Call) and isinstance(o.func, ast.Name) and o.func.id in nts else None
+                if cn and c.func.attr in nts[cn].get("lifted", {}):
+                    c.args = [o] + list(c.args)
+                    c.func = ast.copy_location(ast.Name(f"{cn}__{c.func.attr}", ast.Load()), c.func)
+                    k += 1
+    if k:
+        ast.fix_missing_locations(tree)
+    return k
 
 
 def _sroa(fn: ast.AST, nts: Dict[str, dict]) -> int:
@@ -1076,10 +1203,10 @@ class _CtorField(ast.NodeTransformer):
             vals = dict(zip(fs, v.args))
             vals.update({k.arg: k.value for k in v.keywords})
             if all(f in vals for f in fs) and all(_is_pure(x) or True for x in vals.values()):
-                if a_.attr in fs and all(_is_pure(vals[f]) for f in fs if f != a_.attr):
+                if a_.attr in fs and all(_is_effect_free(vals[f]) for f in fs if f != a_.attr):
                     self.k += 1
                     return vals[a_.attr]
-                if a_.attr in info["props"] and all(_is_pure(x) for x in vals.values()):
+                if a_.attr in info["props"] and all(_is_effect_free(x) for x in vals.values()):
                     body = copy.deepcopy(info["props"][a_.attr][1])
 
                     class S(ast.NodeTransformer):
@@ -1221,6 +1348,243 @@ def _closure_roles(tree: ast.Module, modname: str) -> int:
     return k
 
 
+def _list_builders(fn: ast.AST) -> int:
+    """T22: `L = []`, then only `L.append(e)` statements in the same statement list, then a single read of L: the
+    appended values become temporaries L__k and the read becomes the list literal of them"""
+    k = 0
+    for body in _bodies(fn):
+        for i, s in enumerate(list(body)):
+            if not (isinstance(s, (ast.Assign, ast.AnnAssign)) and getattr(s, "value", None) is not None):
+                continue
+            tg = s.targets[0] if isinstance(s, ast.Assign) and len(s.targets) == 1 else getattr(s, "target", None)
+            v = s.value
+            if not (isinstance(tg, ast.Name) and ((isinstance(v, ast.List) and not v.elts) or
+                                                  (isinstance(v, ast.Call) and isinstance(v.func, ast.Name) and v.func.id == "list" and not v.args))):
+                continue
+            L = tg.id
+            mentions = [n for n in ast.walk(fn) if isinstance(n, ast.Name) and n.id == L]
+            apps = []
+            j = body.index(s) + 1
+            rest_start = None
+            ok = True
+            while j < len(body):
+                t = body[j]
+                names = [n for n in ast.walk(t) if isinstance(n, ast.Name) and n.id == L]
+                if not names:
+                    j += 1
+                    continue
+                if isinstance(t, ast.Expr) and isinstance(t.value, ast.Call) and isinstance(t.value.func, ast.Attribute) and t.value.func.attr == "append" \
+                        and isinstance(t.value.func.value, ast.Name) and t.value.func.value.id == L and len(t.value.args) == 1 and not t.value.keywords \
+                        and len(names) == 1:
+                    apps.append(t)
+                    j += 1
+                    continue
+                rest_start = j
+                break
+            if rest_start is None or not apps:
+                continue
+            reads = [n for t in body[rest_start:] for n in ast.walk(t) if isinstance(n, ast.Name) and n.id == L]
+            if len(reads) != 1 or not isinstance(reads[0].ctx, ast.Load) or len(mentions) != 1 + len(apps) + 1:
+                continue
+            # the read must not sit in a loop of its own (it would then be evaluated more than once; still the same value,
+            # but keep to the simple case) and must not be the object of a method call or subscript store
+            tail = body[rest_start]
+            bad = False
+            for n in ast.walk(tail):
+                if isinstance(n, (ast.Attribute, ast.Subscript)) and n.value is reads[0]:
+                    bad = True
+                if isinstance(n, (ast.For, ast.While, ast.FunctionDef, ast.Lambda, ast.ListComp, ast.GeneratorExp)):
+                    bad = bad or any(m is reads[0] for m in ast.walk(n))
+            if bad:
+                continue
+            temps = []
+            for q, t in enumerate(apps):
+                nm = f"{L}__{q}"
+                temps.append(nm)
+                body[body.index(t)] = ast.copy_location(ast.Assign(targets=[ast.Name(nm, ast.Store())], value=t.value.args[0]), t)
+            lit = ast.List(elts=[ast.Name(nm, ast.Load()) for nm in temps], ctx=ast.Load())
+
+            class R(ast.NodeTransformer):
+                def visit_Name(self, n):
+                    return ast.copy_location(lit, n) if n is reads[0] else n
+            body[body.index(tail)] = R().visit(tail)
+            body.remove(s)
+            for t in body:
+                ast.fix_missing_locations(t)
+            k += 1
+    return k
+
+
+def _partials(tree: ast.Module) -> int:
+    """T23: partial(F, k=v, ...) of a module-level function with parameters of the enclosing function (never rebound
+    there) as bound values is the local closure `def F__p(rest): return F(rest, k=v, ...)`"""
+    mod_funcs = {n.name: n for n in tree.body if isinstance(n, ast.FunctionDef)}
+    k = 0
+    for fn in [n for n in tree.body if isinstance(n, ast.FunctionDef)]:
+        params = {a.arg for a in fn.args.posonlyargs + fn.args.args + fn.args.kwonlyargs}
+        stored = set(_stores(fn))
+        for body in _bodies(fn):
+            i = 0
+            while i < len(body):
+                st = body[i]
+                if isinstance(st, (ast.FunctionDef, ast.ClassDef)):
+                    i += 1
+                    continue
+                made = []
+                hdr = [st] if not isinstance(st, (ast.If, ast.While, ast.For, ast.With, ast.Try)) else \
+                    [st.test] if isinstance(st, (ast.If, ast.While)) else [st.iter] if isinstance(st, ast.For) else \
+                    [it.context_expr for it in st.items] if isinstance(st, ast.With) else []
+                for h in hdr:
+                    for c in list(ast.walk(h)):
+                        if not (isinstance(c, ast.Call) and (dotted_name(c.func) in ("partial", "functools.partial")) and c.args
+                                and isinstance(c.args[0], ast.Name) and c.args[0].id in mod_funcs and len(c.args) == 1 and c.keywords):
+                            continue
+                        F = mod_funcs[c.args[0].id]
+                        if F.args.vararg or F.args.kwarg or F.args.kwonlyargs or F.args.posonlyargs:
+                            continue
+                        fpar = [a.arg for a in F.args.args]
+                        if not all(kw_.arg in fpar and isinstance(kw_.value, ast.Name) and kw_.value.id in params and kw_.value.id not in stored
+                                   for kw_ in c.keywords):
+                            continue
+                        bound = {kw_.arg for kw_ in c.keywords}
+                        rest = [a for a in fpar if a not in bound]
+                        nm = f"{F.name}__p{k}"
+                        call = ast.Call(func=ast.Name(F.name, ast.Load()), args=[ast.Name(a, ast.Load()) for a in rest],
+                                        keywords=[ast.keyword(arg=kw_.arg, value=ast.Name(kw_.value.id, ast.Load())) for kw_ in c.keywords])
+                        d = ast.FunctionDef(name=nm, args=ast.arguments(posonlyargs=[], args=[ast.arg(arg=a) for a in rest], vararg=None,
+                                                                        kwonlyargs=[], kw_defaults=[], kwarg=None, defaults=[]),
+                                            body=[ast.Return(value=call)], decorator_list=[], returns=None, type_params=[])
+                        ast.copy_location(d, st)
+                        made.append((c, d, nm))
+                        k += 1
+                if made:
+                    ids = {id(c): nm for c, _, nm in made}
+
+                    class R(ast.NodeTransformer):
+                        def visit_Call(self, c):
+                            self.generic_visit(c)
+                            if id(c) in ids:
+                                return ast.copy_location(ast.Name(ids[id(c)], ast.Load()), c)
+                            return c
+                    for h in hdr:
+                        R().visit(h)
+                    for _, d, _ in made:
+                        ast.fix_missing_locations(d)
+                        body.insert(i, d)
+                        i += 1
+                    ast.fix_missing_locations(st)
+                i += 1
+    return k
+
+
+def dotted_name(e: ast.AST) -> Optional[str]:
+    if isinstance(e, ast.Name):
+        return e.id
+    if isinstance(e, ast.Attribute):
+        b = dotted_name(e.value)
+        return f"{b}.{e.attr}" if b else None
+    return None
+
+
+def _known_none(fn: ast.AST, classes: Set[str]) -> int:
+    """T24: an if-tree whose every fall-through leaf ends with `v = None` or `v = C(..)` (a call: never None for the
+    classes and NamedTuples built here), directly followed by `if v is None: A else: B`: the test is decided in each
+    leaf, so A resp. B moves into the leaves (a `v = None` that nothing reads any more is dropped).  A copy `w = v`
+    between the two, with v read nowhere else, is coalesced first."""
+    k = 0
+
+    def leaves(block, out) -> bool:
+        if not block:
+            return False
+        last = block[-1]
+        if isinstance(last, ast.If):
+            return bool(last.orelse) and leaves(last.body, out) and leaves(last.orelse, out)
+        if isinstance(last, (ast.Return, ast.Raise)):
+            return True
+        out.append(block)
+        return True
+
+    def loads(node, name):
+        return [n for n in ast.walk(node) if isinstance(n, ast.Name) and n.id == name and isinstance(n.ctx, ast.Load)]
+    for body in _bodies(fn):
+        i = 0
+        while i + 1 < len(body):
+            T = body[i]
+            if not isinstance(T, ast.If):
+                i += 1
+                continue
+            lv: List[list] = []
+            if not leaves([T], lv) or not lv:
+                i += 1
+                continue
+            names = set()
+            okl = True
+            for b in lv:
+                st = b[-1]
+                tg = st.targets[0] if isinstance(st, ast.Assign) and len(st.targets) == 1 else \
+                    st.target if isinstance(st, ast.AnnAssign) and st.value is not None else None
+                if not isinstance(tg, ast.Name) or not ((isinstance(st.value, ast.Constant) and st.value.value is None) or
+                                                        (isinstance(st.value, ast.Call) and isinstance(st.value.func, ast.Name)
+                                                         and st.value.func.id in classes)):
+                    okl = False
+                    break
+                names.add(tg.id)
+            if not okl or len(names) != 1:
+                i += 1
+                continue
+            v = next(iter(names))
+            nxt = body[i + 1]
+            # coalesce `w = v`
+            if isinstance(nxt, ast.Assign) and len(nxt.targets) == 1 and isinstance(nxt.targets[0], ast.Name) and isinstance(nxt.value, ast.Name) \
+                    and nxt.value.id == v and len(loads(fn, v)) == 1 and nxt.targets[0].id not in {n.id for n in ast.walk(T) if isinstance(n, ast.Name)}:
+                w = nxt.targets[0].id
+                for b in lv:
+                    st = b[-1]
+                    (st.targets[0] if isinstance(st, ast.Assign) else st.target).id = w
+                del body[i + 1]
+                v = w
+                k += 1
+                if i + 1 >= len(body):
+                    break
+                nxt = body[i + 1]
+            if not (isinstance(nxt, ast.If) and isinstance(nxt.test, ast.Compare) and len(nxt.test.ops) == 1 and isinstance(nxt.test.ops[0], (ast.Is, ast.IsNot))
+                    and isinstance(nxt.test.left, ast.Name) and nxt.test.left.id == v and isinstance(nxt.test.comparators[0], ast.Constant)
+                    and nxt.test.comparators[0].value is None):
+                i += 1
+                continue
+            none_body, some_body = (nxt.body, nxt.orelse) if isinstance(nxt.test.ops[0], ast.Is) else (nxt.orelse, nxt.body)
+            if sum(len(list(ast.walk(x))) for x in nxt.body + nxt.orelse) > 400:
+                i += 1
+                continue
+            for b in lv:
+                st = b[-1]
+                isnone = isinstance(st.value, ast.Constant)
+                b.extend(copy.deepcopy(x) for x in (none_body if isnone else some_body))
+            del body[i + 1]
+            # dead `v = None`
+            inside_some = set()
+            for b in lv:
+                if not isinstance([x for x in b if isinstance(x, (ast.Assign, ast.AnnAssign)) and
+                                   isinstance((x.targets[0] if isinstance(x, ast.Assign) else x.target), ast.Name) and
+                                   (x.targets[0] if isinstance(x, ast.Assign) else x.target).id == v][-1].value, ast.Constant):
+                    for x in b:
+                        inside_some |= {id(n) for n in ast.walk(x)}
+            if all(id(n) in inside_some for n in loads(fn, v)):
+                for b in lv:
+                    for x in list(b):
+                        if isinstance(x, (ast.Assign, ast.AnnAssign)) and isinstance(getattr(x, "value", None), ast.Constant) and x.value.value is None:
+                            tg = x.targets[0] if isinstance(x, ast.Assign) else x.target
+                            if isinstance(tg, ast.Name) and tg.id == v:
+                                b.remove(x)
+                    if not b:
+                        b.append(ast.Pass())
+            for x in body:
+                ast.fix_missing_locations(x)
+            k += 1
+            i += 1
+    return k
+
+
 def _delegating_generators(tree: ast.Module) -> int:
     """T21: a module-level generator whose whole body is `yield from E` hands out exactly the items of E; when every
     call of it is the iterable of a `for` statement or of a comprehension (consumed at once, on the spot), the call
@@ -1254,9 +1618,11 @@ def _delegating_generators(tree: ast.Module) -> int:
 def normalise(tree: ast.Module, modname: str = "") -> Dict[str, int]:
     stats = {"T1 splat": 0, "T2 parallel": 0, "T3 unroll": 0, "T4 tests": 0}
     stats["T21 delegating generator"] = _delegating_generators(tree)
+    stats["T23 partial application"] = _partials(tree)
     fns = [n for n in ast.walk(tree) if isinstance(n, (ast.FunctionDef, ast.AsyncFunctionDef))]
     for fn in fns:
         stats["T3 unroll"] += _unroll(fn)
+    stats["T22 list builder"] = sum(_list_builders(fn) for fn in fns)
     _AttrCalls().visit(tree)
     nv = _Numpy()
     nv.visit(tree)
@@ -1265,6 +1631,9 @@ def normalise(tree: ast.Module, modname: str = "") -> Dict[str, int]:
     stats["T12 read-only attribute alias"] = sum(_attr_aliases(fn, modname) for fn in fns)
     stats["T20 dict-valued attributes"] = _dict_attributes(tree)
     nts = _namedtuples(tree)
+    classes = {c.name for c in tree.body if isinstance(c, ast.ClassDef)}
+    stats["T24 known None"] = sum(_known_none(fn, classes) for fn in fns)
+    stats["T19b NamedTuple methods"] = _lift_methods(tree, nts)
     stats["T19 NamedTuple locals"] = sum(_sroa(fn, nts) for fn in fns)
     if nts:
         cf = _CtorField(nts)
